@@ -743,9 +743,6 @@ def section_sequence(env, ctx, model):
             ctx.count("sequence:same-function-object")
 
 
-KNOWN_INT = "minimize-integer-start"
-
-
 def section_start_dtypes(env, ctx, model):
     """which dtypes of x0 are taken: the model (`DT.isInexact`) says floating and complex; an integer / boolean start must be
     rejected (TypeError) - kept as the dtype of the optimization variable it truncates every trial point"""
@@ -776,7 +773,7 @@ def section_start_dtypes(env, ctx, model):
                             "scico": {"x": xr, "fun": float(r[1].fun), "success": bool(r[1].success)} if r[0] == "ok" else {"err": r[1]},
                             "expected": "the minimiser t (scipy on the flattened real problem), or a TypeError for a dtype that cannot hold it"}
                     ctx.disagree("wrap.start-dtype", {"section": "start-dtype", "dtype": dt, "method": method, "block": isblk}, fail["scico"], "TypeError" if not acc else "accepted",
-                                 oracle=lambda c, fail=fail: fail, known_id=KNOWN_INT if not acc else None)
+                                 oracle=lambda c, fail=fail: fail)
 
 
 def section_jit(env, ctx, model):
@@ -942,18 +939,6 @@ def correspond(ctx, model):
 
 
 def findings(ctx, model):
-    if ctx.is_known(KNOWN_INT):
-        env = Env()
-        jnp = env.jnp
-        t = jnp.array([0.375, 1.625, 2.5, -0.75])
-        try:
-            with warnings.catch_warnings():
-                warnings.simplefilter("ignore")
-                r = env.solver.minimize(lambda z: jnp.sum((z - t) ** 2), jnp.zeros(4, dtype=jnp.int64), method="Nelder-Mead")
-            still = not np.allclose(np.asarray(r.x, dtype=float), np.asarray(t), atol=1e-3)
-        except TypeError:
-            still = False
-        ctx.known_finding(KNOWN_INT, still)
     if ctx.is_known(KNOWN_F32):
         env = Env()
         jnp = env.jnp
